@@ -5,6 +5,7 @@ import (
 	"os"
 	"path/filepath"
 	"strings"
+	"sync"
 	"time"
 
 	"github.com/akrylysov/pogreb"
@@ -41,7 +42,7 @@ func init() {
 			return 24 + 8
 		},
 		Run:     runC13,
-		Require: []string{"schedules", "schedules_3p", "schedules_2p", "locked_errors", "contended_schedules", "retries_seen", "chains", "opens_failed_by_fault", "chain_recoveries", "chain_clean_opens", "competing_open_rejected"},
+		Require: []string{"schedules", "schedules_3p", "schedules_2p", "locked_errors", "contended_schedules", "retries_seen", "chains", "concurrent_open_rounds", "opens_failed_by_fault", "chain_recoveries", "chain_clean_opens", "competing_open_rejected"},
 		Exhaustive: func(tier string, stats map[string]int64) bool {
 			return tier == "thorough" && stats["subtrees_truncated"] == 0
 		},
@@ -510,9 +511,62 @@ func c13FailedOpens(c *core.Ctx) {
 	}
 }
 
+// c13ConcurrentOpens: real goroutines leave a barrier and call Open on the same fresh (or cleanly closed) directory at
+// once; at most one may succeed, the others must get the 'locked' error. Repeated; no scheduling control - this
+// complements the schedule exploration on file systems whose lock acquisition has no internal yield points.
+func c13ConcurrentOpens(c *core.Ctx, fsk core.FSKind) {
+	cfg := core.Config{}
+	for round := 0; round < 60; round++ {
+		env := core.NewEnv(fsk)
+		n := 4 + round%5
+		var wg sync.WaitGroup
+		start := make(chan struct{})
+		dbs := make([]*pogreb.DB, n)
+		errs := make([]error, n)
+		for i := 0; i < n; i++ {
+			wg.Add(1)
+			go func(i int) {
+				defer wg.Done()
+				<-start
+				dbs[i], errs[i] = env.Open(cfg)
+			}(i)
+		}
+		close(start)
+		wg.Wait()
+		okN := 0
+		for i := 0; i < n; i++ {
+			if errs[i] == nil {
+				okN++
+			} else if !pogreb.VerifIsLocked(errs[i]) {
+				c.Violation("competing-open-error", fmt.Sprintf("%d concurrent Opens on %s: one failed with %v instead of the 'locked' error", n, fsk, errs[i]), nil)
+			}
+		}
+		c.Eval(1)
+		c.Stat("concurrent_open_rounds", 1)
+		if okN > 1 {
+			c.Violation("second-handle", fmt.Sprintf("%d goroutines called Open on the same directory (%s) at the same time and %d of them succeeded", n, fsk, okN), map[string]interface{}{"fs": fsk})
+		}
+		for i := 0; i < n; i++ {
+			if dbs[i] != nil {
+				dbs[i].Close()
+			}
+		}
+		env.Cleanup()
+		if c.Violations() > 0 {
+			return
+		}
+	}
+}
+
 func runC13Chains(c *core.Ctx, sub int) {
 	kinds := []core.FSKind{core.FSOS, core.FSOSMMap, core.FSMem, core.FSCrash}
 	fsk := kinds[sub%4]
+	if sub < 4 {
+		c13ConcurrentOpens(c, fsk)
+		if c.Violations() > 0 {
+			return
+		}
+	}
 	if fsk == core.FSCrash {
 		c13FailedOpens(c)
 		if c.Violations() > 0 {
